@@ -472,6 +472,7 @@ class Eval:
             # ---- O: clauses on the implementation's outputs, event by event
             flushed = None
             delete_ev = None
+            delete_req = None
             for l in il:
                 w = l.split(" ")
                 if l.startswith("E commit"):
@@ -495,8 +496,14 @@ class Eval:
                             pend = None
                         else:
                             flushed, pend = pend, None
+                elif l.startswith("E delete_req"):
+                    delete_req = (w[2], w[4], w[3]) if len(w) > 4 else None
                 elif l.startswith("E delete") and w[2] in "ps":
                     delete_ev = (w[4], w[3])
+                    # the entry the notifier finds selected is the one the call named by its index
+                    if delete_req and delete_req[0] in "ps" and delete_req[1:] != delete_ev:
+                        self.viols.append((i, "delete:wrong-candidate", "delete_candidate named %s/%s but %s/%s is the one being deleted" % (
+                            delete_req[1], show(delete_req[2]), delete_ev[0], show(delete_ev[1]))))
             if pend and pend["d0"] is None:
                 pend["d0"] = idb       # durable state the transaction started from (the previous one was flushed by StartSession)
             if flushed and flushed["d0"] is not None and idb is not None and delete_ev is None:
@@ -660,7 +667,8 @@ def evaluate(style, impl_lines, model_lines):
 
 def run_batch(c, exe, ws, schema, style, predict, rows, histories, tag):
     rc, impl = run_impl(c, exe, ws, schema, histories, tag)
-    model_in = "\n".join(header(style, predict, rows) + impl) + "\n"
+    # (`E delete_req` is the harness's note of which candidate a delete call named: for the monitor, not an engine event)
+    model_in = "\n".join(header(style, predict, rows) + [l for l in impl if not l.startswith("E delete_req")]) + "\n"
     model = vlib.run_driver("driver_c10", model_in).splitlines()
     evs = evaluate(style, impl, model)
     return rc, impl, model, evs
